@@ -91,7 +91,9 @@ def info(prop):
             "[ bonds ]/[ constraints ]/[ pairs ] (4165 graph-split pairs) x a fixed list of decoration variants (gapped "
             "increasing numbering, residues, spacing/tabs, comment lines, commented-out content, trailing comments, blank lines, "
             "#include/#define/#ifdef lines, section order incl. atoms after bonds, extra sections angles/dihedrals/exclusions, "
-            "empty and repeated sections, header styles, missing final newline); random graphs on 5..12 atoms; chains, stars, "
+            "empty and repeated sections, header styles, missing final newline; 12 variants in the quick tier, 40 in the thorough tier); "
+            "the [ moleculetype ] line with a trailing comment separated by white space or glued to nrexcl (all graphs on <= 3 atoms); "
+            "sampled, not exhaustive: random graphs on 5..12 atoms; chains, stars, "
             "random trees, forests and cyclic graphs of 1000..3000 atoms; the 16 shipped topologies against an independent "
             "minimal parse. Oracles (positions of the listed pairs, union-find connectivity) come from the generated "
             "specification, never from the object under check."),
@@ -1021,7 +1023,8 @@ def run_cases(family, cases, with_guards=True):
         for case, text, exp in cases:
             fails, evald, extras = evaluate(text, exp, workdir=wd)
             tally.add(case, text, exp, fails, evald, extras)
-            if with_guards and (gcase is None or (not gcase[1]["pairs"] and exp["pairs"])) and len(text) < 400000:
+            if (with_guards and not fails and (gcase is None or (not gcase[1]["pairs"] and exp["pairs"]))
+                    and len(text) < 400000):
                 gcase = (text, exp)
     finally:
         shutil.rmtree(wd, ignore_errors=True)
